@@ -288,9 +288,68 @@ def corrected_lists(cf, votes):
     return out
 
 
+BIG = 20000       # above this many voters the list-based references give way to the run-length ones
+
+
+def corrected_runs(cf, votes):
+    """the same corrections on run-length encoded sorted score lists [(score, copies), ...] - for vote counts that do not fit
+    a list with one element per voter"""
+    cands = sorted({cc for b, _ in votes for cc, _ in b})
+    nv = sum(w for _, w in votes)
+    tr = q(cf['trunc'])
+    out = {}
+    for cc in cands:
+        runs = {}
+        for b, w in votes:
+            for c2, s in b:
+                if c2 == cc:
+                    runs[q(s)] = runs.get(q(s), 0) + w
+        n_scores = sum(runs.values())
+        if n_scores < cf['min_count']:
+            out[cc] = [(q(cf['bottom']), cf['min_count'])]
+            continue
+        if cf['unscored'] != 'none':
+            u = min(runs) if cf['unscored'] == 'min' else q(cf['unscored'])
+            runs[u] = runs.get(u, 0) + (nv - n_scores)
+        lst = sorted((v, k) for v, k in runs.items() if k > 0)
+        total = sum(k for _, k in lst)
+        if tr > 0:
+            cut = int(tr) if tr >= 1 else int((nv if nv else n_scores) * tr)
+            cut = max(0, min(cut, (total - 1) // 2))
+            for side in (0, -1):
+                left = cut
+                while left and lst:
+                    v, k = lst[side]
+                    if k <= left:
+                        lst.pop(side)
+                        left -= k
+                    else:
+                        lst[side] = (v, k - left)
+                        left = 0
+        out[cc] = lst
+    return out
+
+
 def score_ref(cf, votes):
     """the configured exact aggregate of every candidate (None when some candidate is left without scores)"""
     out = {}
+    if sum(w for _, w in votes) > BIG:
+        for cc, runs in corrected_runs(cf, votes).items():
+            total = sum(k for _, k in runs)
+            if not total:
+                return None
+            if cf['fn'] == 'sum':
+                out[cc] = sum(v * k for v, k in runs)
+            elif cf['fn'] == 'mean':
+                out[cc] = Fraction(sum(v * k for v, k in runs), total)
+            else:
+                seen = 0
+                for v, k in runs:
+                    seen += k
+                    if seen > (total - 1) // 2:
+                        out[cc] = v
+                        break
+        return out
     for cc, lst in corrected_lists(cf, votes).items():
         if not lst:
             return None
@@ -305,6 +364,8 @@ def score_ref(cf, votes):
 
 def mj_lists(cf, votes):
     """per candidate the sorted list of corrected scores (None when some candidate is left without scores)"""
+    if sum(w for _, w in votes) > BIG:
+        return None
     out = corrected_lists(cf, votes)
     return None if any(not l for l in out.values()) else out
 
@@ -973,6 +1034,34 @@ def gen_score_trunc(rng, count):
         yield c
 
 
+def gen_counted(rng, count):
+    """boundary stream for the counted aggregates (fixes/C12-score-counted, Model/Cardinal.v aggregate_one_w / pos_keys): ballot
+    counts around 10^12 and 10^25 with differences of one vote (sum, mean, low median, the minimum for unscored_value = 'min',
+    a truncation fraction cutting whole numbers of votes), where a list with one element per voter cannot be built; score voting
+    and majority judgment (plus rule, or medians that decide); the default tie-break on counts of a few hundred (its model
+    fuel is a unary number).  Grades include a negative and a fractional one."""
+    for _ in range(count):
+        m = rng.randint(2, 4)
+        base = rng.choice([10 ** 12, 10 ** 12, 10 ** 25 + 7, 3 * 10 ** 9])
+        u = rng.choice(['score', 'score', 'mj', 'mjd'])
+        if u == 'mjd':
+            base = rng.choice([20, 50, 100])
+        rows = {}
+        grades = [0, 1, 2, 3, 5, -1, '1/2']
+        for _ in range(rng.randint(2, 5)):
+            cs = sorted(rng.sample(range(1, m + 1), rng.randint(1, m)))
+            b = tuple((cc, rng.choice(grades[:5] if rng.random() < 0.8 else grades)) for cc in cs)
+            rows[b] = base * rng.randint(1, 3) + rng.choice([0, 0, 1, -1, 2])
+        votes = [[[list(x) for x in b], w] for b, w in rows.items()]
+        mm = len({cc for b, _ in votes for cc, _ in b})
+        cfg = dict(fn=rng.choice(['mean', 'sum', 'median_low']), unscored=rng.choice(['none', 'none', '0', 'min']),
+                   min_count=rng.choice([0, 0, 2]), trunc=rng.choice(['0', '0', '1/10', '1/4', '1', '1/2']), bottom='0')
+        if u == 'score':
+            yield dict(unit='score', votes=votes, n=rng.randint(1, mm), cfg=cfg)
+        else:
+            yield dict(unit='mj', votes=votes, n=rng.randint(1, mm), cfg=dict(cfg, fn='median_low'), plus=(u == 'mj'))
+
+
 def corpus():
     import os, json, glob
     for p in sorted(glob.glob(os.path.join(common.VERIF, 'corpus', ID, '*.json'))):
@@ -987,6 +1076,8 @@ def explore(ctx, widen=1):
     ctx.differential('mj-seats-level', gen_mj_seats(ctx.rng, ctx.n(3000, 30000) * widen), model_line, impl, **kw)
     ctx.differential('star-seats', gen_star_seats(ctx.rng, ctx.n(2500, 25000) * widen), model_line, impl, **kw)
     ctx.differential('score-trunc', gen_score_trunc(ctx.rng, ctx.n(1500, 15000) * widen), model_line, impl, **kw)
+    if probes()['counted']:
+        ctx.differential('score-counted', gen_counted(ctx.rng, ctx.n(1200, 12000) * widen), model_line, impl, **kw)
     ctx.differential('alloc-exact-quota', gen_alloc_exact(ctx.rng, ctx.n(3000, 20000) * widen), model_line, impl, **kw)
     ctx.differential('alloc-model', gen_alloc_model(ctx.rng, ctx.n(4000, 40000) * widen), model_line, impl, **kw)
 
